@@ -72,5 +72,6 @@ let run (st : stream) (b : Buffer.t) : unit =
     Printf.bprintf b "wf %b\n" (net_wf_b nw);
     Printf.bprintf b "maxvehicles %s\n" (zs (max_vehicles nw));
     Printf.bprintf b "ovf %b\n" (overflow_ok_b nw);
+    Printf.bprintf b "netok %b\n" (net_ok_b nw && dists_finite_b nw && dh_dists_finite_b nw);
     dump_network nw b
   | _ -> Buffer.add_string b "load PANIC\n"
